@@ -3,6 +3,7 @@
    JSON as s-expression:  null | true | false | (num u N) | (num i N) | (num f) | (s CPS) | (arr J...) | (obj (CPS J)...)
    path  = (COMP...)  with COMP = CPS ;  raw path = (SEG...) with SEG = CPS | up
    c20-decode : PRESET J                       -> err:<class> | (ok KIND RWD FILES)
+   c20-inwd   : (PATH kind) STAT RAW            -> 1 | 0
    c20-route  : LAYOUT CWD STATS FAILING PRESET HOOK
                 LAYOUT  = ((PATH kind)...)     kind = normal | bare | submodule | worktree
                 CWD     = none | PATH
@@ -98,4 +99,18 @@ let c20_route body = match parse_many body with
         (int_of_n (status_of o)) (bool_s (o = Panicked)) (bool_s (has_scope_all o)) (String.concat " " recs)
   | _ -> failwith "c20-route"
 
-let () = run_driver ["c20-decode", c20_decode; "c20-route", c20_route] []
+(* c20-inwd : (PATH kind) STAT RAW   with STAT = missing | (file PATH) | (dir PATH)   ->  1 | 0     (Repository::path_is_in_workdir) *)
+let c20_inwd body = match parse_many body with
+  | [r; st; raw] ->
+      let repo = repo_of r in
+      let rawp = raw_of raw in
+      let tbl = (match st with
+        | Sym "missing" -> []
+        | L [Sym "file"; real] -> [(rawp, IsFile (path_of real))]
+        | L [Sym "dir"; real] -> [(rawp, IsDir (path_of real))]
+        | _ -> failwith "stat") in
+      let env = mk_env [repo] None tbl [] in
+      bool_s (in_wd env repo rawp)
+  | _ -> failwith "c20-inwd"
+
+let () = run_driver ["c20-decode", c20_decode; "c20-route", c20_route; "c20-inwd", c20_inwd] []
